@@ -40,7 +40,8 @@ AbsII(c, mid) == CASE c = "farIn"  -> Now - (mid \div 2)
                    [] OTHER        -> Zero
 
 IssCls  == {"reg", "other", "unknown", "empty", "absent"}
-DestCls == {"absent", "eq", "nearmiss", "other", "empty"}
+\* ownurl: another endpoint of this very IdP (its login, logout or metadata URL) - not the SSO URL
+DestCls == {"absent", "eq", "nearmiss", "other", "ownurl", "empty"}
 VerCls  == {"2.0", "1.1", "near", "absent", "empty"}
 UrlCls  == {"absent", "A", "B", "C", "O", "unreg", "nearmiss"}
 IdxCls  == {"absent", "n0", "n1", "n2", "unknown", "nonnum", "lead0", "plus", "empty"}
@@ -157,7 +158,7 @@ Unmarshal == /\ pc = "Unmarshal" /\ Keep
              /\ IF in.frame = "wrongroot" \/ in.ii = "garbage" THEN Reject("Unmarshal") ELSE Goto("Dest")
 \* :430 Destination checked whenever non-empty
 Dest == /\ pc = "Dest" /\ Keep
-        /\ IF in.dest \in {"nearmiss", "other"} THEN Reject("Destination") ELSE Goto("Fresh")
+        /\ IF in.dest \in {"nearmiss", "other", "ownurl"} THEN Reject("Destination") ELSE Goto("Fresh")
 \* :437 IssueInstant.Add(MaxIssueDelay).Before(now)
 Fresh == /\ pc = "Fresh" /\ Keep
          /\ IF ii + mid < Now THEN Reject("IssueInstant") ELSE Goto("Version")
@@ -219,7 +220,7 @@ Stale       == ii + mid < Now                       \* an absent or unreadable I
 OnBoundary  == ii + mid = Now
 Future      == ii > Now
 VersionBad  == in.ver # "2.0"
-DestBad     == in.dest \in {"nearmiss", "other"}   \* names a Destination that is not the SSO URL
+DestBad     == in.dest \in {"nearmiss", "other", "ownurl"}   \* names a Destination that is not the SSO URL
 IssuerBad   == ~Known(in.iss)                       \* absent, empty, or unknown to the registry
 Adm         == Admissible(R, in.url, in.idx)
 NoEndpoint  == Known(in.iss) /\ Adm = {None}
